@@ -1154,7 +1154,7 @@ def run_impl(case) -> dict:
             return {'kind': 'unrenderable', 'why': str(e)}
     err = res.error
     args = getattr(err, 'args', ())
-    if len(args) >= 2 and args[-2] == 'FAILWITH' and box and box[-1] is not None:
+    if len(args) >= 2 and args[-2] == 'FAILWITH' and box and box[-1] is not None and args[-1] == repr(box[-1]):
         v = box[-1]
         try:
             return {'kind': 'failwith', 'value': obj_pval(v), 'micheline': v.to_micheline_value(mode='readable'),
@@ -1310,7 +1310,7 @@ def run_contract(case) -> dict:
         except Unrenderable as e:
             return {'kind': 'unrenderable', 'why': str(e), 'micheline': storage}
     args = getattr(err, 'args', ())
-    if len(args) >= 2 and args[-2] == 'FAILWITH' and box and box[-1] is not None:
+    if len(args) >= 2 and args[-2] == 'FAILWITH' and box and box[-1] is not None and args[-1] == repr(box[-1]):
         try:
             return {'kind': 'failwith', 'value': obj_pval(box[-1]), 'repr_ok': args[-1] == repr(box[-1])}
         except Unrenderable as e:
@@ -1711,7 +1711,7 @@ def run_session(case) -> list:
                 o = {'kind': 'done', 'stack': [(obj_pval(v), None, None, None) for v in res.stack.items]}
             else:
                 args = getattr(res.error, 'args', ())
-                if len(args) >= 2 and args[-2] == 'FAILWITH' and box and box[-1] is not None:
+                if len(args) >= 2 and args[-2] == 'FAILWITH' and box and box[-1] is not None and args[-1] == repr(box[-1]):
                     o = {'kind': 'failwith', 'value': obj_pval(box[-1]), 'repr_ok': args[-1] == repr(box[-1])}
                 else:
                     o = {'kind': 'error', 'why': repr(res.error)[:300]}
